@@ -934,6 +934,25 @@ def _branch_npu(net):
     return True
 
 
+def _fanout_reshape(net, cout):
+    """a 1x1 convolution to `cout` channels whose result is read by a RELU (own shape) AND by a RESHAPE that cannot be bypassed (the tensor has a
+    second consumer, so the reshape becomes a copy); the chain continues behind the RESHAPE"""
+    if not _hw4(net) or net.T(net.cur)["dtype"] not in ("int8", "uint8", "int16"):
+        return False
+    if not _conv_like(net, "conv", 1, 1, PAD_SAME, "NONE", cout=cout):
+        return False
+    x = net.cur
+    t = net.T(x)
+    y = net.act(t["shape"], t["dtype"], q=(net.scale(x), net.zp(x)))
+    net.op("RELU", [x], [y], None)
+    net.cur = x
+    return _reshape(net)
+
+
+inst("fanout_reshape_c24")(lambda n: _fanout_reshape(n, 24))
+inst("fanout_reshape_c32")(lambda n: _fanout_reshape(n, 32))
+
+
 @inst("cpu_custom_opt")
 def _custom_opt(net):
     """third-party custom op whose middle operand is omitted (-1) and whose last operand is a constant"""
@@ -1169,7 +1188,7 @@ SIGMA_Q = [
     "conv1x1", "conv3x3", "conv3x3s2", "conv3x3v_relu6", "conv3x3d2", "dw3x3", "dw3x3s2", "fc", "maxpool2x2",
     "avgpool2x2", "avgpool3x3same", "add_res", "add_const", "add_scalar", "add_bcast_h", "sub_const", "mul_const",
     "min_const", "relu", "leaky_relu", "logistic", "tanh", "hard_swish", "reshape", "concat", "split", "strided_slice",
-    "pad_hw", "pad_c", "mean", "resize_nn2", "quantize", "tconv_s2", "softmax", "cpu_d2s", "cpu_custom", "conv_dynw", "cpu_neg", "tap", "branch_cpu", "branch_npu", "conv_dynw_nobias", "cpu_custom_opt", "conv3x3_c1", "slice", "conv_again", "conv_pair_shared", "reshape_requant", "fc_fc_sq", "conv_c3_sq", "cpu_conv_s4", "cpu_conv_s4_pair", "logistic_coarse", "c24_reshape_w_relu", "conv_then_c1", "cpu_squeeze0", "late_cpu_reader", "skip_over_cpu", "cpu_sub_nopot", "lut_evict_chain", "lut_same_over_ew",
+    "pad_hw", "pad_c", "mean", "resize_nn2", "quantize", "tconv_s2", "softmax", "cpu_d2s", "cpu_custom", "conv_dynw", "cpu_neg", "tap", "branch_cpu", "branch_npu", "conv_dynw_nobias", "cpu_custom_opt", "conv3x3_c1", "slice", "conv_again", "conv_pair_shared", "reshape_requant", "fc_fc_sq", "conv_c3_sq", "cpu_conv_s4", "cpu_conv_s4_pair", "logistic_coarse", "c24_reshape_w_relu", "conv_then_c1", "cpu_squeeze0", "late_cpu_reader", "skip_over_cpu", "cpu_sub_nopot", "lut_evict_chain", "lut_same_over_ew", "fanout_reshape_c24", "fanout_reshape_c32",
 ]
 SIGMA_T = SIGMA_Q + [n for n, (_, tags) in INSTANCES.items() if "t" in tags]
 SIGMA_C = [n for n, (_, tags) in INSTANCES.items() if "c" in tags]
